@@ -1,8 +1,9 @@
 (* C12 driver.  Same input as harness/src/bin/c12.rs:
      H <TAB> op <TAB> op ...     op ::= <command> {SP arg} | dump | raw <tag>     arg ::= @<step> | =<str>
    Output: one field per op, `E<kind>` | `N` | `V<str>` | dump `D<size>|<step> A ..|..`; a field
-   gets the suffix `~` when the executed step (model M for natives, as-is array_concat) differs from
-   the specification S applied to the same state (only array_concat in the F6 situation).
+   gets the suffix `~<what the specification S answers>` (H = a new handle) when the executed step
+   (model M for natives, as-is array_concat) differs from S applied to the same state (only
+   array_concat in the F6 situation).
    The oracles of the model are supplied here: the i-th drawn key is "handle:M" ^ 19 digits, and
    map_keys / set_to_array list their elements in canonical order (handle names replaced by the
    step that allocated them), exactly as the Rust harness reorders the real arrays. *)
@@ -77,7 +78,12 @@ let () = iter_lines (fun line ->
               | None -> codes_of_string (Printf.sprintf "undefined:%d" k)
             end else str_of_field (String.sub a 1 (String.length a - 1))) (List.tl toks) in
           let o = step_h rnd ord c args !st in
-          let flag = if agrees o (step_s rnd ord c args !st) then "" else "~" in
+          let ideal = step_s rnd ord c args !st in
+          let flag = if agrees o ideal then "" else
+            "~" ^ (match fst ideal with
+                   | Cont (Some v) -> if List.mem name alloc_cmds then "H" else "V" ^ field_of_str v
+                   | Cont None -> "N"
+                   | Error e -> "E" ^ ekind_str e) in
           (match o with
            | Done (r, s') ->
              st := s';
